@@ -8,6 +8,7 @@ class Models:
         self.table = []
         self.cache = {}
         self.force = set()
+        self.skip_re = None       # repository functions that are modelled instead of interpreted (regex over the MIR name)
         self.allocs = {}
         self._cache_lookup = {}
         self.install()
@@ -51,7 +52,7 @@ class Models:
             raise Panic(f"{msg}")
 
         # ---- fmt (opaque)
-        @R(r"^Arguments::<'_>::(new|from_str|new_const|new_v1)|^core::fmt::rt::Argument::<'_>::new_|^format$|^std::fmt::format|^must_use::<String>$|^alloc::fmt::format")
+        @R(r"^Arguments::<'_>::(new|from_str|new_const|new_v1)|^core::fmt::rt::Argument::<'_>::new_|^format$|^std::fmt::format|^must_use::<.*>$|^alloc::fmt::format")
         def _fmt(ex, c, a):
             if c.startswith("must_use"):
                 return a[0]
